@@ -13,7 +13,9 @@ def build():
 
 def run(tier, deadline):
     t0 = time.time(); build()
-    env = dict(os.environ, CAT_LIB=vbuild.build("prod"))
+    # the library as configured here (prod, -O0) and, in the thorough tier, the quick-sized enumeration once more on the library built the way a
+    # default ./configure builds it (dist: -O2, _FORTIFY_SOURCE=2, the repository's hardening flags)
+    envs = {v: dict(os.environ, CAT_LIB=vbuild.build(v)) for v in (("prod",) if tier == "quick" else ("prod", "dist"))}
     N, perms = (7, 0) if tier == "quick" else (10, 1)
     jobs = [[str(N), str(perms), str(i), "16"] for i in range(16)]
     # large arrays around the Leonardo numbers L(k) (heap shapes whose order mask needs more than 32 bits start at L(33))
@@ -28,35 +30,53 @@ def run(tier, deadline):
             big += [["big", str(n), str(f), str(p)] for f, p in fams]
     big.sort(key=lambda j: -int(j[1]) * (8 if j[2] in ("6", "1", "7") else 1))     # slow ones first
     jobs = big + jobs
+    def mkjobs(tier):
+        N, perms = (7, 0) if tier == "quick" else (10, 1)
+        jobs = [[str(N), str(perms), str(i), "16"] for i in range(16)]
+        # large arrays around the Leonardo numbers L(k) (heap shapes whose order mask needs more than 32 bits start at L(33))
+        Lk = [1, 1]
+        while len(Lk) < 40: Lk.append(Lk[-1] + Lk[-2] + 1)
+        big = []
+        for k in ((33, 34) if tier == "quick" else (31, 32, 33, 34, 35)):
+            for d in ((0, 1) if tier == "quick" else (-1, 0, 1, 2, 3)):
+                n = Lk[k] + d
+                fams = [(2, 0), (3, Lk[k] - 1), (0, 0)] if tier == "quick" else \
+                       [(f, 0) for f in (0, 1, 2, 5, 6, 7)] + [(f, p) for f in (3, 4) for p in sorted({0, n - 1, Lk[k] - 1, Lk[k - 1] - 1, Lk[k - 2] - 1}) if 0 <= p < n]
+                big += [["big", str(n), str(f), str(p)] for f, p in fams]
+        big.sort(key=lambda j: -int(j[1]) * (8 if j[2] in ("6", "1", "7") else 1))     # slow ones first
+        jobs = big + jobs
+        return jobs
+    jobs = [("prod", j) for j in jobs] + ([("dist", j) for j in mkjobs("quick")] if tier == "thorough" else [])
     viol = {}; internal = []; tot = {"arrays_sorted": 0, "searches": 0, "comparisons": 0}; timed_out = []
-    def one(j):
+    def one(vj):
+        v, j = vj
         left = deadline - (time.time() - t0)
-        try: return j, subprocess.run([BIN] + j, capture_output=True, text=True, env=env, timeout=max(5, left))
-        except subprocess.TimeoutExpired: timed_out.append(j); return j, None
+        try: return vj, subprocess.run([BIN] + j, capture_output=True, text=True, env=envs[v], timeout=max(5, left))
+        except subprocess.TimeoutExpired: timed_out.append(vj); return vj, None
     with ThreadPoolExecutor(16) as ex:
-        for j, r in ex.map(one, jobs):
+        for (v, j), r in ex.map(one, jobs):
             if r is None: continue
             if r.returncode != 0: internal.append(f"{j}: exit {r.returncode} {r.stderr[-200:]}"); continue
             for ln in r.stdout.splitlines():
                 if not ln.startswith("{"): continue
                 o = json.loads(ln)
-                if o["t"] == "viol": e = viol.setdefault(o["sig"], [0, o["case"]]); e[0] += o["n"]
+                if o["t"] == "viol": e = viol.setdefault(o["sig"], [0, o["case"], v]); e[0] += o["n"]
                 elif o["t"] == "stat":
                     for k in tot: tot[k] += o[k]
     if internal:
         for m in internal[:10]: print("INTERNAL-ERROR:", m, file=sys.stderr)
         return 2
-    violations = [common.Violation(sig, "", f"property=C16\nsignature={sig}\ncase={case}\n", n) for sig, (n, case) in sorted(viol.items())]
+    violations = [common.Violation(sig, "" if v == "prod" else "library build: " + v, f"property=C16\nvariant={v}\nsignature={sig}\ncase={case}\n", n) for sig, (n, case, v) in sorted(viol.items())]
     def confirm(v):
         kv = dict(l.split("=", 1) for l in v.replay_text.strip().splitlines()); return replay(kv, quiet=True) == 1
     cov = {"evaluations": tot["arrays_sorted"] + tot["searches"], "distinct_nontrivial": tot["arrays_sorted"] + tot["searches"] - 14 * 5,
            "rule": "all arrays over keys {0,1,2} with nmemb 0..N (3^n each) x 14 element sizes {1,2,3,4,7,8,12,16,24,255,256,257,300,513} in exact-fit guarded memory; structured families (ascending, descending, all-equal, organ-pipe, two-value, scrambled) for nmemb 8..200; thorough: all 40320 permutations of 0..7; nested use: every key array with nmemb 3..min(N,7) sorted with a comparator that itself calls qsort_s on a 5-element array of another element size (6 size pairs; in every comparison, or only in the 2nd/3rd/4th), inner and outer results both judged; large arrays of 5-byte elements with nmemb = L(k)+d around the Leonardo numbers L(31..35) (quick: L(33), L(34); d in -1..3, quick 0..1) in guarded memory, families ascending, descending, all-equal, two-value, scrambled, organ-pipe, one minimum / one maximum at position 0, nmemb-1, L(k)-1, L(k-1)-1, L(k-2)-1 (permutation checked by a 32-bit index carried in every element; a call that has not returned after C16_TIME_LIMIT=600 s is a violation); bsearch_s on every sorted array x keys {0,1,2,3(absent)} with a stale matching element just outside the array; oracle: order, permutation of full elements, comparator pointers inside the array and element-aligned, context passed, no fault; non-trivial = nmemb >= 1",
-           "samples": ["sort 4 3 020100", "sort 257 7 02010002010001", "search 16 5 0001010202 3", "sort 8 200 <descending>", "nested 4 5 0201000201 257 3", "big 18454930 3 18454928"], "nmemb_bound": N, "comparisons_observed": tot["comparisons"], "jobs_timed_out": len(timed_out)}
+           "samples": ["sort 4 3 020100", "sort 257 7 02010002010001", "search 16 5 0001010202 3", "sort 8 200 <descending>", "nested 4 5 0201000201 257 3", "big 18454930 3 18454928"], "nmemb_bound": N, "comparisons_observed": tot["comparisons"], "jobs_timed_out": len(timed_out), "library_builds": sorted(envs)}
     return common.finish("C16", tier, t0, cov, violations, ["comparator is consistent (total order on the first byte)"], confirm=confirm, exhaustive=not timed_out)
 
 
 def replay(kv, quiet=False):
     build(); c = kv["case"].split()
-    r = subprocess.run([BIN, "replay"] + c, capture_output=True, text=True, env=dict(os.environ, CAT_LIB=vbuild.build("prod")))
+    r = subprocess.run([BIN, "replay"] + c, capture_output=True, text=True, env=dict(os.environ, CAT_LIB=vbuild.build(kv.get("variant", "prod"))))
     if not quiet: sys.stdout.write(r.stdout); sys.stderr.write(r.stderr)
     return r.returncode
